@@ -11,7 +11,8 @@ func usage() {
 	fmt.Fprintln(os.Stderr, `usage:
   govc dump <pkgpattern> <funcname>          print naive-form SSA
   govc vc <pkgpatterns,comma> <funckey|lemma:name>...   generate and discharge obligations of functions (development)
-  govc check <propfile.json> [quick|thorough]  run a property check`)
+  govc check <propfile.json> [quick|thorough]  run a property check
+  govc names <propfile.json>...              give the contract headers positional parameter names and locals lines`)
 	os.Exit(2)
 }
 
@@ -24,6 +25,8 @@ func main() {
 		cmdDump(os.Args[2], os.Args[3])
 	case "vc":
 		cmdVC(os.Args[2], os.Args[3:])
+	case "names":
+		cmdNames(os.Args[2:])
 	case "check":
 		tier := "quick"
 		if len(os.Args) > 3 {
